@@ -119,6 +119,35 @@ def run(chk):
                                "expect": impl[i].decode("utf-8", "replace")}, True,
                               "eval-all on a single document differs from eval: " + evalgen.render(e))
     chk.extra["evalall_vs_eval_cases"] = len(ea_idx)
+    # `|` is associative (C01_pipe_associative): re-bracketing a pipe chain anywhere in the program changes nothing
+    def rotate(e):
+        """first sub-term of the shape (a | b) | c or a | (b | c), re-associated; None when there is none"""
+        if not isinstance(e, tuple):
+            return None
+        if e[0] == "pipe" and isinstance(e[1], tuple) and e[1][0] == "pipe":
+            return ("pipe", e[1][1], ("pipe", e[1][2], e[2]))
+        if e[0] == "pipe" and isinstance(e[2], tuple) and e[2][0] == "pipe":
+            return ("pipe", ("pipe", e[1], e[2][1]), e[2][2])
+        if e[0] in ("lit", "object", "mulf", "getkey", "var"):
+            return None
+        for j in range(1, len(e)):
+            r = rotate(e[j])
+            if r is not None:
+                return e[:j] + (r,) + e[j + 1:]
+        return None
+    rot = [(i, rotate(e)) for i, (e, d) in enumerate(cases)]
+    rot = [(i, r) for i, r in rot if r is not None and not impl[i].startswith(b"UNSUP")]
+    rot_req = [{"op": "eval", "expr": evalgen.render(r), "input": json.dumps(cases[i][1]), "in": "json", "out": "json", "indent": 0} for i, r in rot]
+    rot_out = [evalgen.canon_impl(x) for x in vlib.yqh_parallel(rot_req)]
+    nrot = 0
+    for (i, r), b in zip(rot, rot_out):
+        if b != impl[i]:
+            nrot += 1
+            if nrot <= 3:
+                chk.violation({"kind": "reassoc", "expr": evalgen.render(r), "original": evalgen.render(cases[i][0]), "doc": cases[i][1],
+                               "impl": b.decode("utf-8", "replace"), "expect": impl[i].decode("utf-8", "replace")}, True,
+                              "re-bracketing a pipe chain changes the results: " + evalgen.render(r))
+    chk.extra["pipe_reassociation_cases"] = len(rot)
     # recorded finding: `,` drops the RHS results when both operands return the context's own list
     w = vlib.yqh_batch([{"op": "eval", "expr": ". , .", "input": "2", "in": "json", "out": "json", "indent": 0}])[0]
     if evalgen.canon_impl(w) == b"OK\nI1:2\n":
@@ -134,6 +163,9 @@ def run(chk):
 
 def replay(rp):
     import vlib
+    if rp.get("kind") == "reassoc":
+        r = vlib.yqh_batch([{"op": "eval", "expr": rp["expr"], "input": json.dumps(rp["doc"]), "in": "json", "out": "json", "indent": 0}])[0]
+        return evalgen.canon_impl(r).decode("utf-8", "replace") == rp.get("expect")
     if rp.get("kind") == "evalall":
         r = vlib.yqh_batch([{"op": "eval", "expr": rp["expr"], "input": json.dumps(rp["doc"]), "in": "json", "out": "json", "indent": 0, "all": True}])[0]
         return evalgen.canon_impl(r).decode("utf-8", "replace") == rp.get("expect")
